@@ -64,6 +64,21 @@ def anonymous_members_by_key(repo: Repo, R):
             if isinstance(k, ast.Call) and ast.unparse(k.func) == "Path" and len(k.args) == 1 and isinstance(k.args[0], (ast.List, ast.Tuple)) and len(k.args[0].elts) == 1:
                 k = k.args[0].elts[0]
             filed.append((st, k, "signal"))
+    # a member given as a port reference is looked up through `.resolved` — which may be a bundle reference (a port wired
+    # to a bundle member): the look-up is repeated until no reference is left
+    for st in au.walk_no_nested(loops[0]):
+        if isinstance(st, ast.Assign) and len(st.targets) == 1 and isinstance(st.targets[0], ast.Name) and isinstance(st.value, ast.Call) and ast.unparse(st.value.func) == "self.resolve_bundleref" \
+                and [ast.unparse(a) for a in st.value.args] == [st.targets[0].id]:
+            v_ = st.targets[0].id
+            kinds = _sh.admissible_kinds(fa.node, st, v_, {"BundleRef", "PortRef"})
+            if "PortRef" not in kinds:
+                continue
+            wh = _sh.enclosing(fa.node, st, (ast.While,))
+            r_ = au.isinstance_classes(wh.test) if wh is not None and isinstance(wh.test, ast.Call) else None
+            ok_ = r_ is not None and ast.unparse(r_[0]) == v_ and {"BundleRef", "PortRef"} <= {ast.unparse(c).split(".")[-1] for c in r_[1]}
+            R.check(ok_, rule, key_of(fa, "reference-followed-to-the-end"), fa.at(st),
+                    f"a member that is a port reference is resolved until it is neither a port nor a bundle reference: {ok_}",
+                    why="`AnonymousBundle(x=a.p)` with a.p wired to a bundle member is refused: `Invalid AnonBundle attribute BundleRef`")
     if len(filed) < 4:
         raise AnalysisError(f"idiom-unknown: {fa.site} files {len(filed)} kinds of member; 4 were confirmed by reading")
     bad = [(n, ast.unparse(k), what) for n, k, what in filed if ast.unparse(k) != kv]
